@@ -72,6 +72,7 @@ type c07world struct {
 	node *vNode
 	ids  struct{ meta, seed vIDs }
 	next uint64 // next contact id (1 is the account itself)
+	issue string // discrepancy between ListContacts and GetContactFromGroupPK seen by the last observe
 }
 
 func (w *c07world) newContact() *c07contact {
@@ -109,6 +110,19 @@ func (w *c07world) observe(ms *MetadataStore, cs []*c07contact) ([]c07rec, strin
 		}
 		if own, err := ms.GetRequestOwnMetadataForContact(c.raw); err == nil {
 			r.own = int64(w.metaID(own))
+		}
+		// the same record must be reachable through the key of the contact group derived for this contact
+		if cg, err := ms.secretStore.GetGroupForContact(c.pk); err == nil {
+			byGroup := ms.GetContactFromGroupPK(cg.PublicKey)
+			ac, listed := all[string(c.raw)]
+			switch {
+			case listed && byGroup == nil:
+				w.issue = fmt.Sprintf("contact %d is listed but GetContactFromGroupPK does not know its contact group", c.id)
+			case !listed && byGroup != nil:
+				w.issue = fmt.Sprintf("GetContactFromGroupPK returns a record for contact %d which ListContacts does not list", c.id)
+			case listed && (string(byGroup.Pk) != string(ac.contact.Pk) || string(byGroup.PublicRendezvousSeed) != string(ac.contact.PublicRendezvousSeed) || string(byGroup.Metadata) != string(ac.contact.Metadata)):
+				w.issue = fmt.Sprintf("GetContactFromGroupPK reports seed %d / metadata %d for contact %d, ListContacts %d / %d", w.seedID(byGroup.PublicRendezvousSeed), w.metaID(byGroup.Metadata), c.id, r.seed, r.meta)
+			}
 		}
 		recs[i] = r
 		ow := "None"
@@ -273,7 +287,11 @@ func (w *c07world) runBatch(out *vharness.Out, kind string, seqs [][]c07op, ncon
 				note = fmt.Sprintf("operation %v: accepted=%v, the lifecycle table says %v (err=%v)", o, err == nil, want, err)
 			}
 		}
+		w.issue = ""
 		got, obsCoq := w.observe(ma, cs)
+		if w.issue != "" && ok {
+			ok, note = false, "contact lookup by group key: "+w.issue+fmt.Sprintf(" (after %v)", seq)
+		}
 		for i, c := range cs {
 			if r := batchRef[c.id]; ok && *r != got[i] {
 				ok = false
@@ -305,6 +323,7 @@ func (w *c07world) runBatch(out *vharness.Out, kind string, seqs [][]c07op, ncon
 	}
 
 	// the second device replays the whole log in one batch; then the writer reopens the group
+	w.issue = ""
 	_, wObs := w.observe(ma, batchContacts)
 	vDeliver(ctx, t, mb, ma.OpLog().Heads().Slice()...)
 	_, rObs := w.observe(mb, batchContacts)
@@ -315,7 +334,9 @@ func (w *c07world) runBatch(out *vharness.Out, kind string, seqs [][]c07op, ncon
 	_, oObs := w.observe(ma, batchContacts)
 	ma.Close()
 	ok, note := true, ""
-	if wObs != rObs {
+	if w.issue != "" {
+		ok, note = false, "contact lookup by group key: "+w.issue
+	} else if wObs != rObs {
 		ok, note = false, "a second device that replayed the log reports other contacts than the writer: "+c07diff(wObs, rObs)
 	} else if wObs != oObs {
 		ok, note = false, "the reopened account group reports other contacts than before closing: "+c07diff(wObs, oObs)
